@@ -179,6 +179,48 @@ Example c07_subdivisions_nonvacuous :
   In (I32, 4194304) (subdiv_vals (-4194304) 4194304 1048576).
 Proof. exact subdiv_nonvacuous. Qed.
 
+(* ---------- 1-D transportation (transportation_1d.cpp): the path of DensityLegalizer::improveX/YTransport ---------- *)
+Require Import CV.Transp1d CV.Transp1dProofs CV.Transp1dTerm CV.Transp1dMachine CV.Transp1dMachineProofs.
+
+(* t1d_dom pb: positions within [-2^59, 2^59], supplies and demands >= 0 with totals <= 2^61, fewer than 2^31 - 1
+   sources + sinks, vector lengths consistent.  (The rough legalizer feeds positions scaled to about 10^8 * x / width
+   and supplies = cell areas < 2^31: far inside.) *)
+(* [F] balanceDemand() followed by assign() -- totalSupply/totalDemand, balanceDemand, check, the sorter, setupData,
+   run (updateOptimalSink, pushNewSourceEvents incl. delta, pushNewSinkEvents, the push loop: pushOnce, getSlope's
+   running sums, pushToLastSink, pushToNewSink), flushPositions, computeAssignment: every listed int / long long
+   intermediate fits its type, for ALL problems of the domain *)
+Theorem c07_transp1d_no_overflow : forall pb, t1d_dom pb -> Forall fits (balance_assign_vals pb).
+Proof. exact balance_assign_vals_fit. Qed.
+Theorem c07_transp1d_assign_no_overflow : forall pb, t1d_dom pb -> Forall fits (assign_vals pb).
+Proof. exact assign_vals_fit. Qed.
+Theorem c07_transp1d_balance_no_overflow : forall pb, t1d_dom pb -> Forall fits (balance_vals pb).
+Proof. exact balance_vals_fit. Qed.
+(* [F] the domain is kept by balanceDemand (so that the two calls compose) *)
+Theorem c07_transp1d_balance_keeps_domain : forall pb pb', t1d_dom pb -> balance_demand pb = Ok pb' -> t1d_dom pb'.
+Proof. exact balance_dom. Qed.
+(* [F] computeSolution (the path of solve(), which the library itself never calls) on the positions computed by run *)
+Theorem c07_transp1d_solution_no_overflow : forall pb p,
+  t1d_dom pb -> check pb = None -> run (convert (mk_sorter pb) pb) = Some p ->
+  Forall fits (solution_vals (convert (mk_sorter pb) pb) p).
+Proof. exact solve_solution_vals_fit. Qed.
+(* [F] loops terminate / no out-of-range index / no division by zero on this path (proved for C14, restated here):
+   on every problem accepted by check() the model of assign() answers an assignment -- never EFuel (the while loop of
+   push(i) stops within the stated fuel), never EOOB (every vector access of computeAssignment and
+   convertAssignmentBack is in range); balanceDemand divides by nbSinks() only when there is a sink *)
+Theorem c07_transp1d_assign_total : forall pb, check pb = None -> exists r, assign pb = Ok r.
+Proof. exact assign_total. Qed.
+
+Example c07_transp1d_nonvacuous :
+  t1d_dom ex_t1d /\
+  (exists pb', balance_demand ex_t1d = Ok pb' /\ pb_d pb' = [1345075088707988139; 192153584101141163; 768614336404564650]
+               /\ assign pb' = Ok [0%nat; 1%nat; 2%nat; 2%nat]) /\
+  length (balance_assign_vals ex_t1d) = 216%nat /\
+  In (I64, 2305843009213693952) (balance_assign_vals ex_t1d).
+Proof. exact t1d_nonvacuous. Qed.
+Example c07_transp1d_int_would_overflow :
+  t1d_dom ex_t1d_small /\ exists v, In (I64, v) (balance_assign_vals ex_t1d_small) /\ ~ fits (I32, v).
+Proof. exact t1d_int_would_overflow. Qed.
+
 Print Assumptions c07_rowleg_cost_bound.
 Print Assumptions c07_abacus_try_no_overflow.
 Print Assumptions c07_abacus_place_no_overflow.
@@ -193,3 +235,9 @@ Print Assumptions c07_incr_no_overflow.
 Print Assumptions c07_subdivisions_no_overflow.
 Print Assumptions c07_subdivisions_pre_refuted.
 Print Assumptions c07_subdivisions_pre_no_overflow.
+Print Assumptions c07_transp1d_no_overflow.
+Print Assumptions c07_transp1d_assign_no_overflow.
+Print Assumptions c07_transp1d_balance_no_overflow.
+Print Assumptions c07_transp1d_balance_keeps_domain.
+Print Assumptions c07_transp1d_solution_no_overflow.
+Print Assumptions c07_transp1d_assign_total.
